@@ -385,7 +385,7 @@ func vGenScript(r *rand.Rand, src bool) string {
 // vGenScriptLong: a source that keeps delivering (mostly full 4 KiB reads, no error before the end): a long message
 // that spans many blocks of the reader's buffer, read piecewise and released only at its end.
 func vGenScriptLong(r *rand.Rand) string {
-	n := 8 + r.Intn(17)
+	n := 6 + r.Intn(11)
 	var parts []string
 	for i := 0; i < n; i++ {
 		k := []int{4096, 4096, 4096, 5000, 4095, 2048, 1 + r.Intn(4096)}[r.Intn(7)]
@@ -485,9 +485,9 @@ func VerifAdapterMain(args []string) int {
 		if kind == "ior" || kind == "iow" {
 			first = fmt.Sprintf("%s 0 new", kind)
 		}
-		// one reader sequence in three: long stream, piecewise zero-copy reads, Release rare (results are held
+		// one reader sequence in four: long stream, piecewise zero-copy reads, Release rare (results are held
 		// across many refills of the reader's buffer)
-		long := kind == "zr" && r.Intn(3) == 0
+		long := kind == "zr" && r.Intn(4) == 0
 		if long {
 			first = fmt.Sprintf("zr 0 new %s", vGenScriptLong(r))
 		}
